@@ -722,6 +722,29 @@ def _np_count_nonzero(it, x, *a, **kw):
     return t
 
 
+@np_fn("numpy.allclose", "np.allclose(a, b, rtol, atol): |a - b| <= atol + rtol*|b| for every element (reals; "
+       "nan/inf outside the model): the verdict implies the relation for the arbitrary element and equals it "
+       "when both operands have exactly one element")
+def _np_allclose(it, x, y, rtol=None, atol=None, **kw):
+    from fractions import Fraction
+    rtol = Fraction(1, 10 ** 5) if rtol is None else rtol
+    atol = Fraction(1, 10 ** 8) if atol is None else atol
+    def val(v):
+        v = const_float(v)
+        return to_real(arr_elem(v)) if is_array(v) else scalar_term(it, v)
+    def size(v):
+        return to_z3(arr_size(v)) if is_array(const_float(v)) else z3.IntVal(1)
+    a, b, rt, at = val(x), val(y), val(rtol), val(atol)
+    if any(t is None for t in (a, b, rt, at)):
+        raise Unsupported("np.allclose operands")
+    d = a - b
+    rel = z3.If(d >= 0, d, -d) <= at + rt * z3.If(b >= 0, b, -b)
+    v = it.fresh_bool("allclose")
+    it.assume(z3.Implies(v, rel))
+    it.assume(z3.Implies(z3.And(size(x) == 1, size(y) == 1, size(rtol) == 1, size(atol) == 1), v == rel))
+    return v
+
+
 @np_fn("numpy.shares_memory", "np.shares_memory(a, b): true iff the two arrays are backed by the same buffer "
        "(exact for whole-buffer views, which is all the model has)")
 def _np_shares_memory(it, x, y, *a, **kw):
